@@ -38,6 +38,11 @@ func main() {
 		for _, id := range ids {
 			fmt.Println(id)
 		}
+	case "shuffle":
+		if len(os.Args) < 3 {
+			usage()
+		}
+		os.Exit(shuffleMain(os.Args[2]))
 	case "selftest":
 		os.Exit(selftestMain(os.Args[2:]))
 	case "check":
